@@ -53,7 +53,7 @@ fn code_of<T>(r: &Result<T, ApiErr>) -> Option<Code> {
     r.as_ref().err().map(|e| e.code())
 }
 
-fn api_exec(world: &World, api: &Arc<teos::api::internal::InternalAPI>, cmd: &Cmd) -> Vec<Option<Code>> {
+fn api_exec(world: &World, api: &crate::tower::Api, cmd: &Cmd) -> Vec<Option<Code>> {
     match cmd {
         Cmd::Op(op) => match op.clone() {
             Op::Register { user } => vec![code_of(&tower::register(api, world.users[user].1.serialize().to_vec()))],
@@ -80,12 +80,32 @@ enum Wait {
     Done(Vec<Option<Code>>),
     Blocked(String),
     Watchdog,
+    /// the thread never blocked although this many node RPCs failed with a transport error during the wait
+    Spinning(u64),
+}
+
+/// Transport failures a single call may see before it has to be parked waiting for the node: the
+/// tower's retry loop waits for the reachability flag between attempts, and the harness advances the
+/// (virtual) retry clock a bounded number of times, so a correct tower stays far below this.
+const SPIN_LIMIT: u64 = 400;
+
+thread_local! {
+    static SPIN_NODE: std::cell::RefCell<Option<crate::node::SimNode>> = std::cell::RefCell::new(None);
 }
 
 fn wait_for(sched: &Sched, name: &str, rx: &Receiver<Res>) -> Wait {
     let t0 = Instant::now();
     let mut blocked_seen = 0;
+    // node RPCs counted while the node is down (each of them fails with a transport error)
+    let down_rpcs = || SPIN_NODE.with(|n| n.borrow().as_ref().and_then(|n| if n.down.load(Ordering::SeqCst) { Some(lock(&n.state).rpc_calls) } else { None }));
+    let mut base: Option<u64> = None;
     loop {
+        if let Some(cur) = down_rpcs() {
+            let b = *base.get_or_insert(cur);
+            if cur > b + SPIN_LIMIT {
+                return Wait::Spinning(cur - b);
+            }
+        }
         match rx.try_recv() {
             Ok(Res::Done(v)) => return Wait::Done(v),
             Err(std::sync::mpsc::TryRecvError::Disconnected) => return Wait::Blocked("worker thread died".into()),
@@ -144,6 +164,9 @@ pub fn run_faulted(world: &World, cfg: &tower::TowerCfg, ops: &[Op], base_snaps:
     let (api1_res_tx, api1_res) = channel::<Res>();
     let (ready_tx, ready_rx) = channel::<Result<(), String>>();
     let mut out = Outcome { violation: None, inconclusive: None, hit: false, path: String::new(), unavailable_probes: 0, polls_during_outage: 0, ticks: 0 };
+    SPIN_NODE.with(|n| *n.borrow_mut() = Some(world.node.clone()));
+    let reach_slot: Arc<Mutex<Option<tower::Reachable>>> = Arc::new(Mutex::new(None));
+    let reach_slot2 = reach_slot.clone();
 
     std::thread::scope(|scope| {
         let sched2 = sched.clone();
@@ -182,6 +205,7 @@ pub fn run_faulted(world: &World, cfg: &tower::TowerCfg, ops: &[Op], base_snaps:
                         sched.attach(chain_tid);
                         sched.thread_start();
                         sched.set_idle(true);
+                        *lock(&reach_slot2) = Some(s.reachable.clone());
                         let _ = ready_tx.send(Ok(()));
                         while let Ok(cmd) = chain_rx.recv() {
                             match cmd {
@@ -249,6 +273,15 @@ pub fn run_faulted(world: &World, cfg: &tower::TowerCfg, ops: &[Op], base_snaps:
                 return;
             }};
         }
+        macro_rules! spinning {
+            ($n:expr, $whr:expr) => {{
+                // the flag the public API consults
+                let flagged_up = lock(&reach_slot).as_ref().map(|r| *r.0.lock().unwrap_or_else(|e| e.into_inner())).unwrap_or(true);
+                world.node.down.store(false, Ordering::SeqCst);
+                let sig = if flagged_up { "C12:outage-noticed-but-not-flagged" } else { "C12:busy-retry-during-outage" };
+                fail!(sig.to_string(), format!("{}: {} node RPCs failed with a transport error without the calling thread ever waiting for the node to come back; reachability flag = {} (the public API keeps taking on work while it is true)", $whr, $n, flagged_up));
+            }};
+        }
         while i < ops.len() {
             let op = ops[i].clone();
             // ---- scripted block-source failure inside this poll
@@ -293,6 +326,7 @@ pub fn run_faulted(world: &World, cfg: &tower::TowerCfg, ops: &[Op], base_snaps:
             let _ = wtx.send(if worker == "chain" { Cmd::Poll } else { Cmd::Op(op.clone()) });
             match wait_for(&sched, worker, wrx) {
                 Wait::Watchdog => inconclusive!(format!("watchdog while executing operation #{i}")),
+                Wait::Spinning(n) => spinning!(n, format!("while executing operation #{i}")),
                 Wait::Done(_) => {
                     if is_down() {
                         // the outage began during this call but the call returned: the interrupted RPC was given up
@@ -320,6 +354,7 @@ pub fn run_faulted(world: &World, cfg: &tower::TowerCfg, ops: &[Op], base_snaps:
                                         out.ticks += 1;
                                     }
                                     Wait::Watchdog => inconclusive!("watchdog in a recovery poll".to_string()),
+                                    Wait::Spinning(n) => spinning!(n, "in a recovery poll".to_string()),
                                 }
                             }
                             if !returned {
@@ -360,6 +395,7 @@ pub fn run_faulted(world: &World, cfg: &tower::TowerCfg, ops: &[Op], base_snaps:
                         }
                         Wait::Blocked(d) => fail!(format!("C12:api-hangs-during-outage:{}", block_class(&d)), format!("a public request hangs during the outage: {d}")),
                         Wait::Watchdog => inconclusive!("watchdog in a probe".to_string()),
+                        Wait::Spinning(n) => spinning!(n, "in a probe".to_string()),
                     }
                     // the node stays down for `polls_down` further polls
                     for _ in 0..polls_down {
@@ -369,6 +405,7 @@ pub fn run_faulted(world: &World, cfg: &tower::TowerCfg, ops: &[Op], base_snaps:
                                 Wait::Done(_) => out.polls_during_outage += 1,
                                 Wait::Blocked(d) => fail!(format!("C12:poll-does-not-return:{}", block_class(&d)), format!("a poll issued while the node is down does not return: {d}")),
                                 Wait::Watchdog => inconclusive!("watchdog in a poll during the outage".to_string()),
+                                Wait::Spinning(n) => spinning!(n, "in a poll during the outage".to_string()),
                             }
                         }
                         sched.advance_time();
@@ -411,6 +448,7 @@ pub fn run_faulted(world: &World, cfg: &tower::TowerCfg, ops: &[Op], base_snaps:
                                         out.ticks += 1;
                                     }
                                     Wait::Watchdog => inconclusive!("watchdog in a recovery poll".to_string()),
+                                    Wait::Spinning(n) => spinning!(n, "in a recovery poll".to_string()),
                                 }
                             }
                             if !poll_done {
@@ -432,6 +470,7 @@ pub fn run_faulted(world: &World, cfg: &tower::TowerCfg, ops: &[Op], base_snaps:
                                 }
                             }
                             Wait::Watchdog => inconclusive!("watchdog while waiting for the interrupted call".to_string()),
+                            Wait::Spinning(n) => spinning!(n, "while waiting for the interrupted call".to_string()),
                         }
                         let _ = round;
                     }
@@ -453,6 +492,7 @@ pub fn run_faulted(world: &World, cfg: &tower::TowerCfg, ops: &[Op], base_snaps:
                             Wait::Done(_) => {}
                             Wait::Blocked(d) => fail!(format!("C12:poll-does-not-return:{}", block_class(&d)), format!("after the recovery a poll does not return: {d}")),
                             Wait::Watchdog => inconclusive!("watchdog".to_string()),
+                            Wait::Spinning(n) => spinning!(n, "".to_string()),
                         }
                     }
                     if !available {
